@@ -248,8 +248,9 @@ func (dec *xmlReader) Type() Type {
 			if ty, ok := typeFromName(attr.Value); ok {
 				return ty
 			}
-			//TODO: return error
-			panic("Invalid type")
+			// Unknown type name: report the invalid type 0, which no reading method
+			// accepts, so that the caller gets an encoding error instead of a panic.
+			return Type(0)
 		}
 	}
 	return TypeStructure
